@@ -176,7 +176,7 @@ def run_case(ctx, c):
     rig = make_rig(c["peer"], c.get("blk", 5), c.get("srv"))
     kind, n, k, dist = c["kind"], c["n"], c["k"], c["dist"]
     mux = list(VAL_OBJ)
-    if dist == "mux-sub" and c["seed"] % 2:
+    if dist == "mux-sub0" or (dist == "mux-sub" and c["seed"] % 2):
         mux = list(MEMBER_OBJ)          # a record member: the foreign answer may then also be the one for sub-index 0
     data = payload(n, c["seed"])
     upload = kind.endswith("ul")
@@ -207,12 +207,12 @@ def run_case(ctx, c):
         if dist.startswith("specifier:"):
             scs = int(dist.split(":")[1])
             return [frame.replace(data=bytes([(frame.data[0] & 0x1F) | (scs << 5)]) + frame.data[1:])]
-        if dist in ("mux-index", "mux-sub"):
+        if dist in ("mux-index", "mux-sub", "mux-sub0"):
             # a response that belongs to another object: other multiplexer and, where the frame carries
             # the value itself (expedited upload), that object's different data
             d = bytearray(frame.data)
             d[1 if dist == "mux-index" else 3] ^= 0x01
-            if dist == "mux-sub" and mux[1] and c["seed"] % 4 == 1:
+            if dist == "mux-sub0" or (dist == "mux-sub" and mux[1] and (c["seed"] >> 1) % 3 != 0):
                 d[3] = 0
             if d[0] >> 5 == 2 and d[0] & 0x02:
                 d[4:8] = bytes(b ^ 0xFF for b in d[4:8])
@@ -409,7 +409,7 @@ def enumerate_cases(desc_run, cs):
         if scs in (0, 1) and sc != "blk-segment" and kind in ("seg_dl", "seg_dl_nosize", "seg_ul", "exp_ul") and k > 0:
             dists.append("toggle")
         if k == 0:
-            dists += ["mux-index", "mux-sub"]
+            dists += ["mux-index", "mux-sub", "mux-sub0"]      # (mux-sub0: a record member is asked for, the answer names sub-index 0)
         if kind == "seg_ul" and k >= 1:
             # a late segment of an earlier upload: wrong toggle for this step, so the protocol can tell it apart
             dists += ["stale-between:wrong-toggle-last-segment", "stale-between:wrong-toggle-segment"]
